@@ -22,7 +22,8 @@
 // ---------------------------------------------------------------- keys
 // a level name may contain the character '/' itself (level names are arbitrary strings); on the wire, where '/' separates the
 // levels, it is written '!'.  The oracle and the model keep '!' (just another character), the real router gets '/'.
-std::string decodeName(std::string n) { for (auto &c : n) if (c == '!') c = '/'; return n; }
+// wire form of a level name: `!` stands for `/`, `^` for a line feed (a name no `.` of a regex matches)
+std::string decodeName(std::string n) { for (auto &c : n) { if (c == '!') c = '/'; else if (c == '^') c = '\n'; } return n; }
 
 RoutingKey buildKey(const std::string &pat) {
     RoutingKeyBuilder b;
@@ -30,7 +31,8 @@ RoutingKey buildKey(const std::string &pat) {
     std::string tok;
     while (std::getline(is, tok, '/')) {
         if (tok.empty()) continue;
-        if (tok[0] == '=') b.level(decodeName(tok.substr(1)));
+        if (tok == "*") b.all();                                       // the builder's own wildcard
+        else if (tok[0] == '=') b.level(decodeName(tok.substr(1)));
         else if (tok[0] == '~') b.level(std::regex(tok.substr(1)));
         else throw std::runtime_error("bad level");
     }
